@@ -1,4 +1,4 @@
-CONSTANT N = 6
+CONSTANT N = 2
 INIT Init
 NEXT Next
 INVARIANT SameAdd
@@ -8,3 +8,4 @@ INVARIANT SameCmp
 INVARIANT SameTrunc
 INVARIANT SameChain
 CHECK_DEADLOCK FALSE
+INVARIANT SameRat
